@@ -871,7 +871,9 @@ class Machine(object):
                      "and three back-ends, Integer.random, number.getRandom*, StrongRandom getrandbits/randrange/randint/choice/"
                      "shuffle/sample on small populations) has its whole entropy-tape tree explored breadth first (every value of "
                      "every byte requested, up to a node budget) and pre-images counted exactly; seeded part: cryptographic sizes "
-                     "with boundary / stuck / periodic tapes; non-trivial = every case; distinct = SHA-256 of the canonical case"),
+                     "with boundary / stuck / periodic tapes, engineered private-value bytes for DSA.generate, RSA.generate sizes, a spy on "
+                     "the integer sampler during signing / decryption, Miller-Rabin rounds as separate draws; non-trivial = every case; "
+                     "distinct = SHA-256 of the canonical case"),
             "state_measure": "distinct (API, range-size class) and (operation, range or curve, tape kind) tuples",
             "components": {"real": ["Crypto.Math (three Integer back-ends)", "Crypto.Random.random", "Crypto.Util.number",
                                     "ECC.generate, DSS fips-186-3 nonces, RSA/DSA/ECDSA blinding"],
